@@ -184,7 +184,10 @@ func mutate(b []byte, ms []mutation) []byte {
 	return b
 }
 
-var ms1, ms2 runtime.MemStats
+var (
+	ms1, ms2 runtime.MemStats
+	metering bool
+)
 
 func runCase(c tcase) (res result) {
 	res.ID = c.ID
@@ -197,7 +200,12 @@ func runCase(c tcase) (res result) {
 			defer func() {
 				if p := recover(); p != nil {
 					r = out{Cls: clsPanic, Msg: fmt.Sprint(p), In: r.In}
+					if metering {
+						runtime.ReadMemStats(&ms2)
+						r.Alloc = ms2.TotalAlloc - ms1.TotalAlloc
+					}
 				}
+				metering = false
 			}()
 			switch o.Op {
 			case "static":
@@ -290,12 +298,14 @@ func runCase(c tcase) (res result) {
 					rd = iotest.OneByteReader(bytes.NewReader(in))
 				}
 				runtime.ReadMemStats(&ms1)
+				metering = true
 				if rd == nil {
 					fr, err = s.c.Decode(in)
 				} else {
 					fr, err = s.c.DecodeStream(rd)
 				}
 				runtime.ReadMemStats(&ms2)
+				metering = false
 				r.Alloc = ms2.TotalAlloc - ms1.TotalAlloc
 				r.Cls = classify(err)
 				if err != nil {
